@@ -19,7 +19,7 @@ SIM_UNIT = "filter steps"
 BUDGET = {"quick": {"runs": 6000, "wall": 80}, "thorough": {"runs": 60000, "wall": 1500}}
 SHRINK_LISTS = ("ops",)
 PROBES = {"C13": ["prior-correlated", "prior-diagonal", "step>=10", "time-indexed", "ukf:k<0", "ukf:k>=0",
-                  "ukf:default-k", "ukf:k-varies", "ekf:nonlinear", "QR-per-call", "twin-filter-retuned", "ukf:nonlinear-psd", "pf:judged", "pf:low-ess-judged", "pf:far-from-origin", "outlier-measurement", "dims>=4", "spread>=1e4"]}
+                  "ukf:default-k", "ukf:k-varies", "ekf:nonlinear", "QR-per-call", "QR-at-one-step-only", "ukf:user-msqrt", "twin-filter-retuned", "ukf:nonlinear-psd", "pf:judged", "pf:low-ess-judged", "pf:far-from-origin", "outlier-measurement", "dims>=4", "spread>=1e4"]}
 TS = float(os.environ.get("PPSIM_TOLSCALE", "1"))
 TOL = 1e-9 * TS
 
@@ -61,7 +61,8 @@ def generate(seed, tier, prop="C13"):
            "particles": r.choice([2000, 10000, 40000]), "omega": round(r.uniform(0.1, 1.2), 3),
            "kvary": r.random() < 0.3, "outlier": r.choice([0, 0, 0, 15, 40]),
            "pf_f32": r.random() < 0.35, "offset": r.choice([0.0, 0.0, 300.0]),
-           "qr_at": r.choice(["ctor", "ctor", "call", "call-overrides"])}
+           "qr_at": r.choice(["ctor", "ctor", "call", "call-overrides", "call-once"]),
+           "msqrt": r.choice(["default", "default", "lower-chol", "jitter-chol"])}
     if filt == "PF":
         cfg["rs"] = round(r.uniform(-1, 2), 2); cfg["ps"] = round(r.uniform(-2, 1), 2); cfg["spread"] = r.choice([0, 1])
     ro = rng.stream(seed, "ops")
@@ -77,7 +78,7 @@ def simplify(plan):
     c = plan["config"]
     cands = []
     for k, v in (("n", 1), ("n", 2), ("m", 1), ("q", 1), ("q", 2), ("tv", False), ("spread", 0), ("diagP", True),
-                 ("outlier", 0), ("pf_f32", False), ("offset", 0.0), ("kvary", False),
+                 ("outlier", 0), ("pf_f32", False), ("offset", 0.0), ("kvary", False), ("msqrt", "default"), ("qr_at", "ctor"),
                  ("qs", 0.0), ("rs", 0.0), ("ps", 0.0), ("kmode", "default"), ("plant", "linear"), ("rho", 0.5)):
         if c.get(k) != v:
             cands.append({**plan, "config": dict(c, **{k: v})})
@@ -150,14 +151,24 @@ def execute(plan, prop, out, tr):
     k = _kval(c["kmode"], n)
     # Q, R at construction, only per call, or per call overriding different ones given at construction
     qr_at = c.get("qr_at", "ctor")
-    Qc, Rc = (Q, R) if qr_at == "ctor" else (None, None) if qr_at == "call" else (Q * 7.0 + 1.0, R * 0.3 + 2.0)
-    qr_kw = {} if qr_at == "ctor" else {"Q": Q, "R": R}
+    Qc, Rc = (Q, R) if qr_at in ("ctor", "call-once") else (None, None) if qr_at == "call" else (Q * 7.0 + 1.0, R * 0.3 + 2.0)
+    qr_kw = {} if qr_at in ("ctor", "call-once") else {"Q": Q, "R": R}
+    # "call-once": the constructor's Q, R apply at every step except step 0, which passes other ones explicitly
+    Q_once, R_once = Q * 4.0 + 0.5 * torch.eye(n, dtype=dt), R * 0.25 + 0.7 * torch.eye(q, dtype=dt)
     if qr_at != "ctor":
         out.probe("QR-per-call")
     if filt == "EKF":
         f = pp.module.EKF(model, Qc, Rc)
     elif filt == "UKF":
-        f = pp.module.UKF(model, Qc, Rc)
+        ms = c.get("msqrt", "default")
+        if ms == "lower-chol":
+            f = pp.module.UKF(model, Qc, Rc, msqrt=lambda M_: torch.linalg.cholesky(M_))      # the documented convention: lower factor
+        elif ms == "jitter-chol":
+            f = pp.module.UKF(model, Qc, Rc, msqrt=lambda M_: torch.linalg.cholesky(M_ + 0.0 * torch.eye(M_.shape[-1], dtype=M_.dtype)))
+        else:
+            f = pp.module.UKF(model, Qc, Rc)
+        if ms != "default":
+            out.probe("ukf:user-msqrt")
         out.probe("ukf:default-k" if k is None else "ukf:k<0" if k < 0 else "ukf:k>=0")
     else:
         f = pp.module.PF(model, Qc, Rc, particles=c["particles"])
@@ -187,17 +198,18 @@ def execute(plan, prop, out, tr):
             out.probe("ukf:k-varies")
         u = rng.randn(s, ("u", i), (m,), dt)
         w = LQ @ rng.randn(s, ("w", i), (n,)).numpy(); v = LR @ rng.randn(s, ("v", i), (q,)).numpy()
-        targ = torch.tensor(i) if (c["tv"] or c["plant"] == "nonlinear") else None
+        tval = 3 + 2 * i                     # the explicit time never equals the number of calls made so far
+        targ = torch.tensor(tval) if (c["tv"] or c["plant"] == "nonlinear") else None
         if c["tv"]:
             out.probe("time-indexed")
         # ---- the plant moves, then it is observed
         if c["plant"] == "linear":
-            Mt = mats(i)
+            Mt = mats(tval)
             xt = Mt["A"] @ npd(x_true) + Mt["B"] @ npd(u) + Mt["c1"] + w
             y = Mt["C"] @ xt + Mt["D"] @ npd(u) + Mt["c2"] + v
         else:
-            xt = nls_ref(P_nl, npd(x_true), npd(u), float(i))[0] + w
-            y = nls_ref(P_nl, xt, npd(u), float(i))[1] + v
+            xt = nls_ref(P_nl, npd(x_true), npd(u), float(tval))[0] + w
+            y = nls_ref(P_nl, xt, npd(u), float(tval))[1] + v
         if c.get("outlier") and i == len(plan["ops"]) - 1:
             # 'all measurement values': an outlier k sigma away along a seeded direction, at the last step
             dirn = rng.randn(s, ("out", i), (q,)).numpy(); dirn /= np.linalg.norm(dirn) + 1e-300
@@ -208,12 +220,17 @@ def execute(plan, prop, out, tr):
         out.probe("prior-correlated" if offd else "prior-diagonal")
         if i >= 10:
             out.probe("step>=10")
+        step_kw = dict(qr_kw)
+        Qe, Re = Q, R
+        if qr_at == "call-once" and i == 0:
+            step_kw = {"Q": Q_once, "R": R_once}; Qe, Re = Q_once, R_once
+            out.probe("QR-at-one-step-only")
         args = [t_.clone() for t_ in (x_est, y, u, P)]
         try:
             if filt == "UKF":
-                xn, Pn = f(x_est, y, u, P, t=targ, k=k, **qr_kw)
+                xn, Pn = f(x_est, y, u, P, t=targ, k=k, **step_kw)
             else:
-                xn, Pn = f(x_est, y, u, P, t=targ, **qr_kw)
+                xn, Pn = f(x_est, y, u, P, t=targ, **step_kw)
         except Exception as e:
             if filt == "UKF" and c["plant"] == "nonlinear" and ((3 - n) if k is None else k) < 0:
                 # with a negative centre weight the predicted covariance of a nonlinear model need not be positive
@@ -240,16 +257,16 @@ def execute(plan, prop, out, tr):
             if c["plant"] == "linear":
                 try:
                     xr, Pr, info = refmath.kalman_step(xe, Pe, un, yn, Mt["A"], Mt["B"], Mt["C"], Mt["D"], Mt["c1"], Mt["c2"],
-                                                       npd(Q), npd(R))
+                                                       npd(Qe), npd(Re))
                 except np.linalg.LinAlgError:
                     out.declined("C13.kalman(singular S in the reference)"); break
             else:
-                f0, g0, A_, B_, C_, D_ = nls_ref(P_nl, xe, un, float(i))
+                f0, g0, A_, B_, C_, D_ = nls_ref(P_nl, xe, un, float(tval))
                 xm = f0
-                Pm = A_ @ Pe @ A_.T + npd(Q)
-                S = C_ @ Pm @ C_.T + npd(R)
+                Pm = A_ @ Pe @ A_.T + npd(Qe)
+                S = C_ @ Pm @ C_.T + npd(Re)
                 K = Pm @ C_.T @ np.linalg.inv(S)
-                xr = xm + K @ (yn - nls_ref(P_nl, xm, un, float(i))[1])
+                xr = xm + K @ (yn - nls_ref(P_nl, xm, un, float(tval))[1])
                 Pr = refmath.sym((np.eye(n) - K @ C_) @ Pm)
                 info = {"S": S, "Pm": Pm}
             condS = np.linalg.cond(info["S"])
@@ -281,7 +298,7 @@ def execute(plan, prop, out, tr):
             # posterior mean of the documented particle model, linear plant
             Mt0 = mats(0)
             Pp = n * Pe
-            S = Mt0["C"] @ Pp @ Mt0["C"].T + npd(R)
+            S = Mt0["C"] @ Pp @ Mt0["C"].T + npd(Re)
             K = Pp @ Mt0["C"].T @ np.linalg.inv(S)
             xpost = xe + K @ (yn - (Mt0["C"] @ xe + Mt0["D"] @ un + Mt0["c2"]))
             Ppost = Pp - K @ S @ K.T
@@ -291,7 +308,7 @@ def execute(plan, prop, out, tr):
             L = np.linalg.cholesky(Pp)
             Z = rng.randn(s, ("ess", i), (Ms, n)).numpy() @ L.T + xe
             res = yn - (Z @ Mt0["C"].T + Mt0["D"] @ un + Mt0["c2"])
-            ll = -0.5 * np.einsum("ij,jk,ik->i", res, np.linalg.inv(npd(R)), res)
+            ll = -0.5 * np.einsum("ij,jk,ik->i", res, np.linalg.inv(npd(Re)), res)
             wt = np.exp(ll - ll.max())
             ess = wt.sum() ** 2 / (wt ** 2).sum() / Ms
             N = c["particles"]
@@ -303,7 +320,7 @@ def execute(plan, prop, out, tr):
                 # distance to y may not exceed the max(25%, 10*ESS + 50/N)-quantile of that sample's distances (d(mean) <= weighted
                 # mean of the particles' distances by convexity, and with ESS < 5% that weight sits on the lowest few percent; a
                 # particle picked regardless of its weight lands above the 25% quantile three times out of four).
-                Rinv = np.linalg.inv(npd(R))
+                Rinv = np.linalg.inv(npd(Re))
                 msel = np.linalg.solve(Mt0["A"], npd(xn) - Mt0["B"] @ un - Mt0["c1"])
                 rm = yn - (Mt0["C"] @ msel + Mt0["D"] @ un + Mt0["c2"])
                 d1 = float(rm @ Rinv @ rm)
